@@ -5,4 +5,5 @@ TextsB == <<"GPL-2.0-only", "GPL-1.0+", "GPL-3.0", "MIT+", "DocumentRef-d:Licens
 Blocks == <<<<1, 5, 1, 6>>>>
 First == "0BSD"
 Last == "zlib-acknowledgement"
+PairExc == "Classpath-exception-2.0"
 =============================================================================
